@@ -299,8 +299,8 @@ theorem good_queryResult (hg : Generated.C13.rpcStringLengthGuard = true) : Good
 /-- invariant of the server-side iterator over a write packet -/
 def WpInv (it : WpIter) : Prop := IsGoSlice it.buf ∧ it.pos ≤ it.buf.length
 
-theorem wpInit_noPanic (hg : Generated.C13.rpcStringLengthGuard = true) (kv : Bytes → Option Bytes) (buf : Bytes) (hs : IsGoSlice buf) : (wpInit kv buf).isPanic = false := by
-  unfold wpInit
+theorem wpInitCore_noPanic (hg : Generated.C13.rpcStringLengthGuard = true) (kv : Bytes → Option Bytes) (buf : Bytes) (hs : IsGoSlice buf) : (wpInitCore kv buf).isPanic = false := by
+  unfold wpInitCore
   refine next_noPanic goSlice_dropClosed (good_rpcString hg) hs (by omega) ?_
   intro n1 tags h1
   refine next_noPanic goSlice_dropClosed (good_rpcString hg) hs h1 ?_
@@ -320,9 +320,9 @@ theorem next_eq_ok {d : Dec α} {k : Nat → α → Outcome β} {buf : Bytes} {n
     exact ⟨p.1, p.2, hp, by assumption, h⟩
   · cases hb
 
-theorem wpInit_inv (kv : Bytes → Option Bytes) (buf : Bytes) (hs : IsGoSlice buf) (it : WpIter)
-    (h : wpInit kv buf = .ok it) : WpInv it ∧ it.buf = buf := by
-  unfold wpInit at h
+theorem wpInitCore_inv (kv : Bytes → Option Bytes) (buf : Bytes) (hs : IsGoSlice buf) (it : WpIter)
+    (h : wpInitCore kv buf = .ok it) : WpInv it ∧ it.buf = buf := by
+  unfold wpInitCore at h
   obtain ⟨n1, tags, hd1, hl1, h⟩ := next_eq_ok h
   obtain ⟨n2, flds, hd2, hl2, h⟩ := next_eq_ok h
   obtain ⟨n3, ln, hd3, hl3, h⟩ := next_eq_ok h
@@ -624,8 +624,8 @@ theorem wpDrain_terminates_cnt (kv : Bytes → Option Bytes) :
 theorem noFuel_u32 : NoFuel unmarshalUint32 := by
   intro b; unfold unmarshalUint32; split <;> rfl
 
-theorem wpInit_noFuel (kv : Bytes → Option Bytes) (buf : Bytes) : (wpInit kv buf).isOutOfFuel = false := by
-  unfold wpInit
+theorem wpInitCore_noFuel (kv : Bytes → Option Bytes) (buf : Bytes) : (wpInitCore kv buf).isOutOfFuel = false := by
+  unfold wpInitCore
   refine next_noFuel (noFuel_rpcString _) ?_
   intro _ _
   refine next_noFuel (noFuel_rpcString _) ?_
@@ -634,14 +634,84 @@ theorem wpInit_noFuel (kv : Bytes → Option Bytes) (buf : Bytes) : (wpInit kv b
   intro _ _
   split <;> rfl
 
-theorem wpInit_fresh (kv : Bytes → Option Bytes) (buf : Bytes) (it : WpIter) (h : wpInit kv buf = .ok it) :
+theorem wpInitCore_fresh (kv : Bytes → Option Bytes) (buf : Bytes) (it : WpIter) (h : wpInitCore kv buf = .ok it) :
     it.read = false ∧ it.cur = 0 := by
-  unfold wpInit at h
+  unfold wpInitCore at h
   obtain ⟨_, _, _, _, h⟩ := next_eq_ok h
   obtain ⟨_, _, _, _, h⟩ := next_eq_ok h
   obtain ⟨_, _, _, _, h⟩ := next_eq_ok h
   split at h
   · cases h
   · cases h; exact ⟨rfl, rfl⟩
+
+/-! ### `init` with the validation loop (commit c6bbc14) -/
+
+/-- what `init` accepts is what its first part built -/
+theorem wpInit_core (kv : Bytes → Option Bytes) (buf : Bytes) (it : WpIter) (h : wpInit kv buf = .ok it) :
+    wpInitCore kv buf = .ok it := by
+  unfold wpInit at h
+  obtain ⟨it0, h0, h⟩ := bind_eq_ok h
+  split at h
+  · obtain ⟨_, _, h⟩ := bind_eq_ok h
+    cases h; exact h0
+  · cases h; exact h0
+
+theorem wpValidate_noPanic (hg : Generated.C13.rpcStringLengthGuard = true) (kv : Bytes → Option Bytes) (buf : Bytes)
+    (hs : IsGoSlice buf) : ∀ (k p : Nat), p ≤ buf.length → (wpValidate kv buf k p).isPanic = false
+  | 0, _, _ => rfl
+  | k + 1, p, hp => by
+    unfold wpValidate
+    refine next_noPanic goSlice_dropClosed (good_logEvent hg) hs hp ?_
+    intro n le hn
+    split
+    · rfl
+    · exact wpValidate_noPanic hg kv buf hs k (p + n) hn
+
+theorem wpValidate_noFuel (kv : Bytes → Option Bytes) (buf : Bytes) : ∀ (k p : Nat), (wpValidate kv buf k p).isOutOfFuel = false
+  | 0, _ => rfl
+  | k + 1, p => by
+    unfold wpValidate
+    refine next_noFuel noFuel_logEvent ?_
+    intro n le
+    split
+    · rfl
+    · exact wpValidate_noFuel kv buf k n
+
+theorem wpInit_noPanic (hg : Generated.C13.rpcStringLengthGuard = true) (kv : Bytes → Option Bytes) (buf : Bytes)
+    (hs : IsGoSlice buf) : (wpInit kv buf).isPanic = false := by
+  unfold wpInit
+  refine bind_isPanic_false (wpInitCore_noPanic hg kv buf hs) ?_
+  intro it hit
+  obtain ⟨hinv, hb⟩ := wpInitCore_inv kv buf hs it hit
+  split
+  · refine bind_isPanic_false (wpValidate_noPanic hg kv buf hs it.recs it.pos (by rw [← hb]; exact hinv.2)) ?_
+    intro _ _; rfl
+  · rfl
+
+theorem wpInit_inv (kv : Bytes → Option Bytes) (buf : Bytes) (hs : IsGoSlice buf) (it : WpIter)
+    (h : wpInit kv buf = .ok it) : WpInv it ∧ it.buf = buf :=
+  wpInitCore_inv kv buf hs it (wpInit_core kv buf it h)
+
+theorem wpInit_noFuel (kv : Bytes → Option Bytes) (buf : Bytes) : (wpInit kv buf).isOutOfFuel = false := by
+  unfold wpInit
+  have h0 := wpInitCore_noFuel kv buf
+  cases hc : wpInitCore kv buf with
+  | ok it =>
+    rw [bind_ok]
+    split
+    · have hv := wpValidate_noFuel kv buf it.recs it.pos
+      cases hvv : wpValidate kv buf it.recs it.pos with
+      | ok u => rfl
+      | err => rfl
+      | panic w => rfl
+      | outOfFuel => rw [hvv] at hv; cases hv
+    · rfl
+  | err => rfl
+  | panic w => rfl
+  | outOfFuel => rw [hc] at h0; cases h0
+
+theorem wpInit_fresh (kv : Bytes → Option Bytes) (buf : Bytes) (it : WpIter) (h : wpInit kv buf = .ok it) :
+    it.read = false ∧ it.cur = 0 :=
+  wpInitCore_fresh kv buf it (wpInit_core kv buf it h)
 
 end Logrange.Wire
